@@ -46,13 +46,13 @@ S3 = np.array([[4.0, 2.0, 0.5, 0.0, 0.0], [0.0, 1.0, 3.0, 1.0, 0.0], [0.0, 0.0, 
 S2 = np.array([[3.0, 3.0, 1.0, 0.0, 0.0], [0.0, 0.5, 1.0, 2.0, 3.0]]) / 8.0
 BG1 = np.array([1.0, 1.0, 1.0, 1.0, 1.0]) * 0.25
 BG2 = np.array([0.5, 0.25, 0.125, 0.25, 1.0])
-T1 = np.array([[0.5, 0.75], [1.25, 0.5], [0.25, 1.5]])
+T1 = np.array([[0.5, 0.75], [1.25, 0.5], [0.25, 1.5], [6.0, 0.05]])
 T2 = np.array([[1.0, 1.0], [0.125, 0.25]])
 W2 = np.array([[1.0, 2.0], [0.5, 1.0]])
 
 OPS = [
     ("register_system", "S3"), ("register_system", "S2+bounds"),
-    ("register_bounds", "both"), ("register_bounds", "ub-only"),
+    ("register_bounds", "both"), ("register_bounds", "ub-only"), ("register_bounds", "ub-low"), ("register_bounds", "lb-low"),
     ("register_adaptation", "vector"), ("register_adaptation", "scalar"),
     ("register_baseline", "vector"), ("register_baseline", "zero"),
     ("register_background_adaptation", "replace"), ("register_background_adaptation", "add"),
@@ -72,6 +72,11 @@ def units(tier, seed):
     for a in range(len(OPS)):
         for b in range(len(OPS)):
             out.append(dict(prefix=[a, b], depth=depth, tier=tier))
+    # deeper exploration of the target life cycle (register system / targets / fit / re-register): a sub-alphabet, two more steps
+    sub_ops = [i for i, o in enumerate(OPS) if o in (("register_system", "S2+bounds"), ("register_targets", "T1"), ("register_targets", "T2+W"), ("fit", ""), ("register_bounds", "both"))]
+    for a in sub_ops:
+        for b in sub_ops:
+            out.append(dict(prefix=[a, b], depth=depth + 2, ops=sub_ops, tier=tier))
     return out
 
 
@@ -103,6 +108,10 @@ def model_apply(M, op):
         n = M["A"].shape[1]
         if arg == "both":
             M["lb"], M["ub"] = np.full(n, 0.125), 1.0 + 0.5 * np.arange(n)
+        elif arg == "ub-low":
+            M["ub"] = np.full(n, 0.1)  # below a positive lower bound registered earlier: the box is empty until lb follows
+        elif arg == "lb-low":
+            M["lb"] = np.full(n, 0.05)
         else:
             M["ub"] = np.full(n, 2.0)
         return M, True
@@ -164,6 +173,10 @@ def impl_apply(est, op, n=3):
         elif name == "register_bounds":
             if arg == "both":
                 est.register_bounds(lb=keep(np.full(n, 0.125)), ub=keep(1.0 + 0.5 * np.arange(n)))
+            elif arg == "ub-low":
+                est.register_bounds(ub=keep(np.full(n, 0.1)))
+            elif arg == "lb-low":
+                est.register_bounds(lb=keep(np.full(n, 0.05)))
             else:
                 est.register_bounds(ub=keep(np.full(n, 2.0)))
         elif name == "register_adaptation":
@@ -330,7 +343,7 @@ def run_unit(unit, rec):
         if key is None:
             continue
         if len(hist) >= 2 and len(hist) < depth:
-            for i in range(len(OPS)):
+            for i in unit.get("ops", range(len(OPS))):
                 queue.append(hist + [i])
 
 
@@ -395,7 +408,10 @@ def _visit(hist, rec, seen):
             M["B"] = Bf.copy()
         if M.get("B") is not None:
             M["_Bprev"] = np.asarray(M["B"]).copy()
-    key = Bd.state_key(est)
+    # a state is the pair (implementation state, reference-model state): two histories are merged only when BOTH agree
+    # (an implementation that fails to update something would otherwise be merged with an earlier, legitimately equal state)
+    mkey = tuple((k_, None if v_ is None else (v_ if isinstance(v_, str) else np.asarray(v_, dtype=float).tobytes())) for k_, v_ in sorted(M.items()) if not k_.startswith("_"))
+    key = (Bd.state_key(est), mkey)
     if key in seen:
         rec.outcome("duplicate-state")
         return None
@@ -404,11 +420,16 @@ def _visit(hist, rec, seen):
     registered = M["A"] is not None
     if registered:
         rec.distinct(key)
+    if registered and np.any(np.asarray(M["lb"]) > np.asarray(M["ub"])):
+        # an empty box (upper bound registered below the current lower bound): no query has a defined answer here;
+        # the state is kept for the exploration (the next registration may repair the box)
+        rec.outcome("empty-box-state/not-queried")
+        return True
     # ---- (a) reference model on exact queries
     nn = M["A"].shape[1] if registered else 0
     ans1 = battery(est, n=nn)
     key_after = Bd.state_key(est)
-    if key_after != key:
+    if key_after != key[0]:
         # informational only: a correct implementation may memoise; purity is decided semantically below
         # (repeat answers, order independence, agreement with a fresh object)
         rec.count("attribute-bytes-changed-by-queries")
@@ -422,6 +443,18 @@ def _visit(hist, rec, seen):
         exact["system_capture"] = X @ M["A"].T
         exact["system_relative_capture"] = (X @ M["A"].T + bvec) * Kc
         exact["in_system"] = (X >= M["lb"]) & (X <= M["ub"])
+    if registered:
+        # the registered bounds, read through the documented attributes, are those of the reference model
+        for attr in ("lb", "ub"):
+            try:
+                val = np.broadcast_to(np.asarray(getattr(est, attr), dtype=float), np.shape(M[attr]))
+            except Exception:  # noqa
+                continue
+            oka = bool(np.array_equal(val, M[attr]))
+            rec.outcome("model-agreement/%s" % ("ok" if oka else "bad"))
+            if not oka:
+                _v(rec, "a", dict(query="attribute:" + attr, what="differs-from-reference-model", op=(OPS[hist[-1]][0] if hist else "init")), "registered %s differs from the reference model after history %s" % (attr, hname), case,
+                   observed=val, expected=M[attr], script=_script(hist))
     for q, ref in exact.items():
         (st, cv, raw), mut = ans1[q]
         okv = st == "ok" and np.shape(raw) == ref.shape and (np.array_equal(raw, ref) if ref.dtype == bool else np.all(np.abs(np.asarray(raw, dtype=float) - ref) <= 1e-12 * (1 + np.abs(ref))))
@@ -444,6 +477,19 @@ def _visit(hist, rec, seen):
                 if abs(mg[j]) > 1e-6 * ext and bool(np.asarray(raw)[j]) != bool(mg[j] > 0):
                     _v(rec, "a", dict(query="in_hull", what="differs-from-reference-model", op=(OPS[hist[-1]][0] if hist else "init")), "in_hull differs from the reference model's gamut after history %s" % hname, case,
                        observed=np.asarray(raw), expected=mg, script=_script(hist))
+    if registered and M.get("B") is not None and "in_hull-registered" in ans1:
+        # membership of the REGISTERED targets (query without argument) against the reference model's targets and gamut
+        (st, cv, raw), _ = ans1["in_hull-registered"]
+        Abar, c0 = model_abar(M)
+        Bm = np.asarray(M["B"], dtype=float)
+        mgr = O.zono_margin(Bm, Abar, c0, M["lb"], M["ub"]) if np.all(np.isfinite(M["ub"])) else O.cone_margin(Bm, Abar, c0 + Abar @ M["lb"])
+        if st == "ok" and mgr is not None and np.shape(raw) == (len(Bm),):
+            ext = max(1e-9, float(np.max(np.abs(Abar) @ np.where(np.isfinite(M["ub"]), M["ub"] - M["lb"], 1.0))))
+            for j in range(len(Bm)):
+                if abs(mgr[j]) > 1e-6 * ext and bool(np.asarray(raw)[j]) != bool(mgr[j] > 0):
+                    _v(rec, "a", dict(query="in_hull-registered", what="differs-from-reference-model", op=(OPS[hist[-1]][0] if hist else "init")),
+                       "in_hull() of the registered targets differs from the reference model (registered targets %s) after history %s" % (Bm[j].tolist(), hname), case, observed=np.asarray(raw), expected=mgr, script=_script(hist))
+                    break
     if registered and M.get("B") is not None and "fit()-on-copy" in ans1:
         (st, cv, raw), _ = ans1["fit()-on-copy"]
         Abar, c0 = model_abar(M)
@@ -538,7 +584,7 @@ def _script(hist):
             n = 3 if arg == "S3" else 2
             lines.append("est.register_system(%s)" % A(S3) if arg == "S3" else "est.register_system(%s, lb=%s, ub=%s)" % (A(S2), A([0.0, 0.25]), A([1.0, 1.5])))
         elif name == "register_bounds":
-            lines.append("est.register_bounds(lb=%s, ub=%s)" % (A(np.full(n, 0.125)), A(1.0 + 0.5 * np.arange(n))) if arg == "both" else "est.register_bounds(ub=%s)" % A(np.full(n, 2.0)))
+            lines.append("est.register_bounds(lb=%s, ub=%s)" % (A(np.full(n, 0.125)), A(1.0 + 0.5 * np.arange(n))) if arg == "both" else ("est.register_bounds(ub=%s)" % A(np.full(n, 0.1)) if arg == "ub-low" else ("est.register_bounds(lb=%s)" % A(np.full(n, 0.05)) if arg == "lb-low" else "est.register_bounds(ub=%s)" % A(np.full(n, 2.0)))))
         elif name == "register_adaptation":
             lines.append("est.register_adaptation(%s)" % (A([0.5, 2.0]) if arg == "vector" else "1.5"))
         elif name == "register_baseline":
